@@ -1,8 +1,574 @@
-import Isotp.Process
+import Isotp.Proofs.Duplex
 /-
-  C10 — property theorems (see DESIGN.md §6). Helper lemmas live in Isotp/Proofs.
+  C10 — Full duplex: concurrent send and receive never disturb each other.
+
+  The endpoint theorems (the sender emits the reference segmentation: C01/C02; the receiver reassembles
+  every well-formed stream with arbitrary own transmissions interleaved: C03/C06) are proved elsewhere.
+  What is specific to full duplex is the INTERFERENCE of the two directions inside one layer, through the
+  two shared fields
+    * `lastFc`    (`last_flow_control_frame`): depth-1 mailbox of a received Flow Control — written by
+                  `processRx`, consumed by `processTx`, but also cleared by `stopReceiving`
+                  (`_stop_receiving` → `_stop_sending_flow_control`), although it belongs to the
+                  transmit direction;
+    * `pendingFc` (`pending_flow_control_tx`): requested by the receive side, served by `processTx`
+                  before anything else — and then the pass returns early, mailbox untouched.
+  This file proves that the alternation discipline of `process()` with `do_tx = true` (H-dotx) makes this
+  sharing harmless, states exactly what holds without it, and exhibits the schedule (using the public
+  flag `do_tx = False`) on which a received Flow Control IS lost.
+
+  Sections: 1 `rxLoop_stops_at_fc` · 2 `mailbox_consumed_first` · 3 `MailboxInv` / `fc_never_lost`
+  (+ the false unrestricted statement and its witness) · 4 `end_of_process_mailbox_empty` ·
+  5 frame conditions between the directions · 6 `no_wedge_duplex`.
+  Helper lemmas: `Isotp/Proofs/Duplex.lean` (namespace `Isotp.Duplex`), `Proofs/Fc.lean`, `Proofs/Timers.lean`.
 -/
 namespace Isotp.C10
-open Isotp State
+open Isotp State Duplex
+
+/-! ## concrete layer used by the non-vacuity examples and the witnesses
+
+  Layer A (tx id 0x123, rx id 0x456, default parameters: blocksize 8, STmin 0, 8-byte frames) sends a
+  20-byte message to its peer B while B sends a 10-byte message to A. -/
+
+def h11 : Half := { mode := .n11, txid := some 0x123, rxid := some 0x456, ta := none, sa := none, ae := none,
+                    physId := 0, funcId := 0, rxOnly := false, txOnly := false }
+def addr : Addr := { tx := h11, rx := h11 }
+def cfg : Cfg := {}
+/-- a frame from the peer B -/
+def fromB (d : Bytes) : CanMsg := { id := 0x456, ext := false, data := d }
+
+/-- B's First Frame (10 bytes announced, 6 carried) -/
+def ffB : CanMsg := fromB [0x10, 10, 1, 2, 3, 4, 5, 6]
+/-- B's last Consecutive Frame (the remaining 4 bytes) -/
+def cfB : CanMsg := fromB [0x21, 7, 8, 9, 10]
+/-- B's ContinueToSend for A's transmission (BS = 0, STmin = 0) -/
+def ctsB : CanMsg := fromB [0x30, 0, 0]
+
+def a0 : State := State.init cfg addr
+/-- `send(20 bytes)` -/
+def a1 : State := (a0.send { id := 1, size := 20, src := List.replicate 20 0x55 }).1
+/-- `process()`: A's First Frame goes out, A waits for B's Flow Control -/
+def a2 : State := (a1.process true true).1
+/-- B's First Frame arrives -/
+def a3 : State := a2.pushFrame 0 ffB
+/-- `process()`: First Frame read, A's ContinueToSend sent: A is now in WAIT_CF **and** WAIT_FC -/
+def dup : State := (a3.process true true).1
+/-- the bus delivers B's ContinueToSend and then B's last Consecutive Frame -/
+def dupIn : State := (dup.pushFrame 0 ctsB).pushFrame 0 cfB
+
+example : dup.rxState = .waitCf ∧ dup.txState = .waitFc ∧ dup.lastFc = none ∧ dup.pendingFc = false ∧
+    dup.timerCf.start = some 0 ∧ dup.timerFc.start = some 0 := by decide
+example : dupIn.inbox = [(0, ctsB), (0, cfB)] := by decide
+example : fcOf dupIn ctsB = some ⟨0, 0, 0⟩ ∧ fcOf dupIn cfB = none := by decide
+
+/-! ## 1. `rxLoop` stops at a Flow Control -/
+
+/-- **rxLoop_stops_at_fc.** If the head `m` of the inbox is for me and decodes to a Flow Control `fc`,
+    `rxLoop` returns right after `processRx`: the state is the arrival state (clock advanced, frame
+    logged, N_Cr checked) with `lastFc := some fc`; no re-run is requested by `rxLoop` itself (third
+    component `false`); statistics count one frame received and processed. -/
+theorem rxLoop_stops_at_fc (doTx : Bool) (s : State) (st : Stats) (dt : Nat) (m : CanMsg)
+    (rest : List (Nat × CanMsg)) (fc : FcFrame) (hme : s.addr.rx.isForMe m = true)
+    (hfc : fcOf s m = some fc) :
+    rxLoop doTx s st ((dt, m) :: rest) =
+      ({ s.rxArrive dt m rest with lastFc := some fc },
+       { st with received := st.received + 1, processed := st.processed + 1 }, false) :=
+  Duplex.rxLoop_stops_at_fc doTx s st dt m rest fc hme (by rw [fcOf_rxArrive]; exact hfc)
+
+/-- … in particular the rest of the inbox is untouched — no further frame is read before the tx loop has
+    run — and the mailbox holds the Flow Control -/
+theorem rxLoop_stops_at_fc_inbox (doTx : Bool) (s : State) (st : Stats) (dt : Nat) (m : CanMsg)
+    (rest : List (Nat × CanMsg)) (fc : FcFrame) (hme : s.addr.rx.isForMe m = true)
+    (hfc : fcOf s m = some fc) :
+    (rxLoop doTx s st ((dt, m) :: rest)).1.inbox = rest ∧
+    (rxLoop doTx s st ((dt, m) :: rest)).1.lastFc = some fc ∧
+    (rxLoop doTx s st ((dt, m) :: rest)).2.2 = false := by
+  rw [rxLoop_stops_at_fc doTx s st dt m rest fc hme hfc]
+  exact ⟨rxArrive_inbox s dt m rest, rfl, rfl⟩
+
+/-- `fcOf` is what `processRx` does with a Flow Control: mailbox written, immediate tx pass required -/
+theorem processRx_flow_control (s : State) (m : CanMsg) (fc : FcFrame) (h : fcOf s m = some fc) :
+    s.processRx m = ({ s with lastFc := some fc }, true, false) := processRx_fc h
+
+example : dupIn.addr.rx.isForMe ctsB = true ∧ fcOf dupIn ctsB = some ⟨0, 0, 0⟩ := by decide
+example : (rxLoop true dupIn {} dupIn.inbox).1.inbox = [(0, cfB)] ∧
+    (rxLoop true dupIn {} dupIn.inbox).1.lastFc = some ⟨0, 0, 0⟩ :=
+  let h := rxLoop_stops_at_fc_inbox true dupIn {} 0 ctsB [(0, cfB)] ⟨0, 0, 0⟩ (by decide) (by decide)
+  ⟨h.1, h.2.1⟩
+
+/-! ## 2. The mailbox is consumed first — except behind a pending Flow Control -/
+
+/-- **mailbox_consumed_first (one pass).** `processTx` always leaves `lastFc = none`, EXCEPT when it
+    returns early from the pending-FC branch: then a Flow Control was pending (`pendingFc = true`), the
+    mailbox is unchanged, and the pass returns `immediate_rx_required = true` (or raised an exception:
+    `pendingFcStatus` unset / frame not buildable). -/
+theorem mailbox_consumed_first (s : State) :
+    s.processTx.1.lastFc = none ∨
+    (s.pendingFc = true ∧ s.processTx.1.lastFc = s.lastFc ∧
+      (s.processTx.2.2 = true ∨ s.processTx.1.exc.isSome = true)) :=
+  processTx_lastFc s
+
+/-- without a Flow Control to send, the pass consumes the mailbox through the Overflow branch … -/
+theorem mailbox_consumed_overflow (s : State) (fc : FcFrame) (hp : s.pendingFc = false)
+    (hfc : s.lastFc = some fc) (h2 : fc.status = 2) :
+    s.processTx = ((({ s with lastFc := none } : State).stopSending false).error .Overflow, none, false) :=
+  processTx_consumes_overflow s fc hp hfc h2
+
+/-- … or through `handleFc`, and then goes on like a fresh pass (N_Bs check, state machine) -/
+theorem mailbox_consumed_handleFc (s : State) (fc : FcFrame) (hp : s.pendingFc = false)
+    (hfc : s.lastFc = some fc) (h2 : fc.status ≠ 2) :
+    s.processTx = (Fc.afterTimeout (({ s with lastFc := none } : State).handleFc fc)).processTx :=
+  processTx_consumes_handle s fc hp hfc h2
+
+/-- **mailbox_consumed_first (tx loop).** After `txLoop` with at least one unit of fuel: the mailbox is
+    empty, or — only if a Flow Control was pending at its entry — the mailbox is unchanged and the loop
+    returned with `run_process` requested (third component) or with an exception. -/
+theorem txLoop_mailbox (f : Nat) (s : State) (n : Nat) :
+    (txLoop (f + 1) s n).1.lastFc = none ∨
+    (s.pendingFc = true ∧ (txLoop (f + 1) s n).1.lastFc = s.lastFc ∧
+      ((txLoop (f + 1) s n).2.2.1 = true ∨ (txLoop (f + 1) s n).1.exc.isSome = true)) := by
+  have := txLoopT_lastFc f s n
+  rw [txLoopT_fst] at this
+  exact this
+
+/-- no exception, no re-run requested: the mailbox is empty after the tx loop -/
+theorem txLoop_mailbox_empty (f : Nat) (s : State) (n : Nat) (he : (txLoop (f + 1) s n).1.exc = none)
+    (hr : (txLoop (f + 1) s n).2.2.1 = false) : (txLoop (f + 1) s n).1.lastFc = none := by
+  rcases txLoop_mailbox f s n with h | ⟨-, -, h | h⟩
+  · exact h
+  · rw [hr] at h; cases h
+  · rw [he] at h; cases h
+
+/-- the early return does happen: Flow Control pending and mailbox full ⇒ the mailbox survives the pass -/
+def bothSet : State := { dup with pendingFc := true, lastFc := some ⟨0, 0, 0⟩ }
+example : bothSet.processTx.1.lastFc = some ⟨0, 0, 0⟩ ∧ bothSet.processTx.2.2 = true ∧
+    bothSet.processTx.2.1.map (·.data) = some [0x30, 8, 0] := by decide
+/-- … and without a pending Flow Control it is consumed (ContinueToSend honoured: TRANSMIT_CF) -/
+def mailSet : State := { dup with lastFc := some ⟨0, 0, 0⟩ }
+example : mailSet.processTx.1.lastFc = none ∧ mailSet.processTx.1.txState = .transmitCf := by decide
+example : mailSet.pendingFc = false ∧ mailSet.lastFc = some ⟨0, 0, 0⟩ := by decide
+/-- an Overflow Flow Control in the mailbox: consumed by the Overflow branch, transmission failed -/
+def ovflSet : State := { dup with lastFc := some ⟨2, 0, 0⟩ }
+example : ovflSet.pendingFc = false ∧ ovflSet.processTx.1.lastFc = none ∧ ovflSet.processTx.1.txState = .idle ∧
+    ovflSet.processTx.1.log.take 2 = [.err 0 .Overflow, .done 1 false] := by decide
+/-- the tx loop on `mailSet`: no exception, no re-run requested, two Consecutive Frames, mailbox empty -/
+example : (txLoop 5 mailSet 0).1.exc = none ∧ (txLoop 5 mailSet 0).2.2.1 = false ∧
+    (txLoop 5 mailSet 0).2.1 = 2 ∧ (txLoop 5 mailSet 0).1.lastFc = none := by decide +kernel
+/-- … and on `bothSet`: the loop returns after one pass with `run_process` requested, mailbox still full -/
+example : (txLoop 5 bothSet 0).1.lastFc = some ⟨0, 0, 0⟩ ∧ (txLoop 5 bothSet 0).2.2.1 = true ∧
+    (txLoop 5 bothSet 0).2.1 = 1 := by decide +kernel
+
+/-! ## 3. The key invariant and `fc_never_lost`
+
+  `Duplex.processT` is `process` instrumented with the list of its `processRx` / `processTx` call points
+  (`Call.rx s m` / `Call.tx s`: the function is about to be applied to state `s`), in order; erasing the
+  list gives back the model function (`process_trace_erasure`). `Duplex.TraceOk` says:
+    * every `processRx` call finds `lastFc = none ∧ pendingFc = false` (`MailboxInv`);
+    * a `processRx` call on a Flow Control is immediately followed by a `processTx` call whose state
+      still has this Flow Control in the mailbox;
+    * every `processTx` call finds `pendingFc = true → lastFc = none` (`MailboxExcl`). -/
+
+/-- the instrumentation is faithful: forgetting the call points gives `process` -/
+theorem process_trace_erasure (s : State) (doRx doTx : Bool) :
+    (processT s doRx doTx).1 = s.process doRx doTx := processT_fst s doRx doTx
+
+/-- **MailboxInv is an invariant of `process(do_rx, do_tx = true)`**, for every inbox, every fuel
+    (no "enough fuel" or "no exception" side condition is needed). -/
+theorem mailbox_inv_process (s : State) (doRx : Bool) (h : MailboxInv s) :
+    MailboxInv (s.process doRx true).1 := process_mail s doRx h
+
+/-- **fc_never_lost.** From a state with an empty mailbox and no Flow Control pending, with
+    `do_tx = true`: all call points of the `process` call satisfy `TraceOk`. -/
+theorem fc_never_lost (s : State) (doRx : Bool) (h : MailboxInv s) :
+    TraceOk (processT s doRx true).2 := (processT_ok s doRx h).2
+
+/-- under H-dotx (every `process` call has `do_tx = true`) `MailboxInv` holds between any two
+    operations of the layer … -/
+theorem mailbox_inv_reachable {s : State} (h : ReachTx s) : MailboxInv s := h.mailboxInv
+
+/-- … hence `fc_never_lost` holds for every `process(·, true)` call of every H-dotx run -/
+theorem fc_never_lost_reachable {s : State} (h : ReachTx s) (doRx : Bool) :
+    TraceOk (processT s doRx true).2 := fc_never_lost s doRx h.mailboxInv
+
+/-- `TraceOk` read at a `processRx` call: the mailbox is empty and nothing is pending at that moment, so
+    a `stopReceiving` inside this call (reception complete, aborted, …) destroys nothing -/
+theorem processRx_call_mailbox_empty (s : State) (doRx : Bool) (h : MailboxInv s) (s' : State) (m : CanMsg)
+    (hc : Call.rx s' m ∈ (processT s doRx true).2) : s'.lastFc = none ∧ s'.pendingFc = false :=
+  (fc_never_lost s doRx h).mem hc
+
+/-- `TraceOk` read at a `processTx` call: never a full mailbox behind a pending Flow Control -/
+theorem processTx_call_no_early_return (s : State) (doRx : Bool) (h : MailboxInv s) (s' : State)
+    (hc : Call.tx s' ∈ (processT s doRx true).2) : s'.pendingFc = true → s'.lastFc = none :=
+  (fc_never_lost s doRx h).mem hc
+
+/-- `TraceOk` read at a Flow Control: the call right after the `processRx` that stored `fc` is a
+    `processTx` call — before any other `processRx` call and inside the same `process` call — applied to
+    a state `s₂` with `lastFc = some fc` and `pendingFc = false`; by `mailbox_consumed_overflow` /
+    `mailbox_consumed_handleFc` this pass consumes `fc` (Overflow branch or `handleFc`). -/
+theorem fc_consumed_by_next_pass (s : State) (doRx : Bool) (h : MailboxInv s)
+    (pre rest : List Call) (s₁ : State) (m : CanMsg) (fc : FcFrame)
+    (htr : (processT s doRx true).2 = pre ++ Call.rx s₁ m :: rest) (hfc : fcOf s₁ m = some fc) :
+    ∃ s₂ rest', rest = Call.tx s₂ :: rest' ∧ s₂.lastFc = some fc ∧ s₂.pendingFc = false ∧
+      (fc.status = 2 →
+        s₂.processTx = ((({ s₂ with lastFc := none } : State).stopSending false).error .Overflow, none, false)) ∧
+      (fc.status ≠ 2 →
+        s₂.processTx = (Fc.afterTimeout (({ s₂ with lastFc := none } : State).handleFc fc)).processTx) := by
+  have h1 := fc_never_lost s doRx h
+  rw [htr] at h1
+  obtain ⟨s₂, rest', hr, hl, hp⟩ := h1.fc_next hfc
+  exact ⟨s₂, rest', hr, hl, hp, mailbox_consumed_overflow s₂ fc hp hl, mailbox_consumed_handleFc s₂ fc hp hl⟩
+
+/-! ### non-vacuity: the layer in WAIT_CF and WAIT_FC, inbox = [FC for my transmission, last CF of my
+    reception] -/
+
+example : MailboxInv dupIn := ⟨by decide, by decide⟩
+example : ReachTx dupIn :=
+  .pushFrame _ _ (.pushFrame _ _ (.process true (.pushFrame _ _ (.process true (.send _ (.init cfg addr))))))
+
+/-- what the call points look like on `dupIn`: the Flow Control is read, the very next call is the
+    `processTx` pass that honours it (two Consecutive Frames follow, STmin = 0), and B's Consecutive Frame
+    is still in the inbox when `process` returns (it is read by the next call) -/
+example : ((processT dupIn true true).2.map fun c => match c with
+      | .rx s m => (0, s.lastFc.isSome, m.data)
+      | .tx s => (1, s.lastFc.isSome, [])) =
+    [(0, false, [0x30, 0, 0]), (1, true, []), (1, false, []), (1, false, [])] := by decide +kernel
+
+example : (dupIn.process true true).1.txState = .idle ∧ (dupIn.process true true).1.rxState = .waitCf ∧
+    (dupIn.process true true).1.inbox = [(0, cfB)] ∧
+    ((dupIn.process true true).1.log.take 3).map (fun e => match e with | .tx _ m => m.data | _ => []) =
+      [[0x22, 0x55, 0x55, 0x55, 0x55, 0x55, 0x55, 0x55], [],
+       [0x21, 0x55, 0x55, 0x55, 0x55, 0x55, 0x55, 0x55]] := by decide +kernel
+
+/-- both directions complete: A's request is completed with success, B's payload is delivered intact -/
+example : ((dupIn.process true true).1.process true true).1.rxQueue = [[1, 2, 3, 4, 5, 6, 7, 8, 9, 10]] ∧
+    ((dupIn.process true true).1.process true true).1.rxState = .idle ∧
+    ((dupIn.process true true).1.process true true).1.txState = .idle ∧
+    Ev.done 1 true ∈ ((dupIn.process true true).1.process true true).1.log := by decide +kernel
+
+/-! ### The unrestricted statement is FALSE: a received Flow Control can be lost
+
+  Hypothesis tested: "starting from a state with `lastFc = none`, with `do_tx = true`, no Flow Control is
+  ever lost". It fails when a Flow Control is PENDING at the entry of `process` (`pendingFc = true`),
+  which the public flag `do_tx = False` produces:
+
+    1. A: `send(20 bytes)`; `process()`            → A's FF on the bus, A in WAIT_FC
+    2. B's FF (10-byte message) is delivered; A: `process(do_rx=True, do_tx=False)`
+                                                    → A in WAIT_CF, `pending_flow_control_tx = True`,
+                                                      nothing sent                         (state `w0`)
+    3. B's ContinueToSend for A's message is delivered; A: `process()`:
+         rx loop : reads the FC → mailbox full, `immediate_tx_required` → break
+         tx loop : pass 1 serves the PENDING Flow Control first (A's CTS goes out) and returns early with
+                   `immediate_rx_required` → `run_process`; the mailbox is still full
+         rx loop : (re-entered) B, which has just received A's CTS, sends its last CF; `rxfn` returns it;
+                   reception complete → `_stop_receiving` → `_stop_sending_flow_control`
+                   → `last_flow_control_frame = None`: **B's ContinueToSend is destroyed unread**
+         tx loop : WAIT_FC, mailbox empty: nothing happens.
+       A's transmission stays in WAIT_FC until N_Bs expires (FlowControlTimeoutError), although B
+       answered in time. In the model the frames that `rxfn` will return are the inbox `[CTS, CF]`. -/
+
+/-- step 2 with the non-default flag: B's First Frame read by an rx-only pass -/
+def w0 : State := (a3.process true false).1
+/-- the bus then delivers B's ContinueToSend and (after A's ContinueToSend) B's last Consecutive Frame -/
+def wIn : State := (w0.pushFrame 0 ctsB).pushFrame 0 cfB
+
+example : w0.rxState = .waitCf ∧ w0.txState = .waitFc ∧ w0.lastFc = none ∧ w0.pendingFc = true ∧
+    w0.pendingFcStatus = some 0 := by decide
+example : wIn.inbox = [(0, ctsB), (0, cfB)] ∧ wIn.lastFc = none := by decide
+
+/-- the witness is reachable by public operations (one `process` call has `do_tx = false`) -/
+theorem witness_reachable : Reach wIn :=
+  .pushFrame _ _ (.pushFrame _ _ (.process true false (.pushFrame _ _ (.process true true
+    (.send _ (.init cfg addr))))))
+
+/-- the full statement, with only "`lastFc = none` at entry" as hypothesis -/
+def C10_fc_never_lost_statement : Prop :=
+  ∀ (s : State) (doRx : Bool), s.lastFc = none → TraceOk (processT s doRx true).2
+
+/-- a `processRx` call made with a full mailbox -/
+def rxOnFullMailbox : Call → Bool
+  | .rx s _ => s.lastFc.isSome
+  | .tx _ => false
+
+/-- on the witness, B's Consecutive Frame is handed to `processRx` while B's ContinueToSend is still in
+    the mailbox … -/
+theorem witness_trace :
+    ((processT wIn true true).2.map fun c => match c with
+      | .rx s m => (0, s.lastFc.isSome, m.data)
+      | .tx s => (1, s.lastFc.isSome, [])) =
+    [(0, false, [0x30, 0, 0]), (1, true, []), (0, true, [0x21, 7, 8, 9, 10]), (1, false, [])] := by
+  decide +kernel
+
+/-- **fc_never_lost is FALSE without `pendingFc = false` at entry.** -/
+theorem fc_never_lost_statement_false : ¬ C10_fc_never_lost_statement := by
+  intro h
+  have h1 := h wIn true (by decide)
+  have h2 : (processT wIn true true).2.any rxOnFullMailbox = true := by decide +kernel
+  obtain ⟨c, hc, hb⟩ := List.any_eq_true.mp h2
+  have h3 := h1.mem hc
+  cases c with
+  | tx s => cases hb
+  | rx s m =>
+    have : s.lastFc = none := h3.1
+    simp [rxOnFullMailbox, this] at hb
+
+/-- … and the Flow Control is lost for good: after the call the reception is complete and delivered, the
+    inbox is empty, the mailbox is empty, and the transmission is still waiting for the Flow Control
+    that B did send; the only frame A has sent in this call is its own ContinueToSend. On the same
+    frames WITHOUT the pending Flow Control (`dupIn`, above) both Consecutive Frames go out. -/
+theorem fc_lost_witness :
+    (wIn.process true true).1.txState = .waitFc ∧ (wIn.process true true).1.lastFc = none ∧
+    (wIn.process true true).1.inbox = [] ∧ (wIn.process true true).1.exc = none ∧
+    (wIn.process true true).2.2 = false ∧
+    (wIn.process true true).1.rxQueue = [[1, 2, 3, 4, 5, 6, 7, 8, 9, 10]] ∧
+    (wIn.process true true).2.1.sent = 1 ∧
+    ((wIn.process true true).1.log.take 4).map (fun e => match e with
+        | .tx _ m => (0, m.data) | .rx _ m => (1, m.data) | .deliver p => (2, p) | _ => (3, [])) =
+      [(3, []), (2, [1, 2, 3, 4, 5, 6, 7, 8, 9, 10]), (1, [0x21, 7, 8, 9, 10]), (0, [0x30, 8, 0])] := by
+  decide +kernel
+
+/-- the transmission then dies by N_Bs timeout although the peer answered in time -/
+theorem fc_lost_witness_timeout :
+    Ev.err 1000000001 .FlowControlTimeout ∈
+      ((((wIn.process true true).1.advance 1000000001).process true true).1.log) ∧
+    Ev.done 1 false ∈ ((((wIn.process true true).1.advance 1000000001).process true true).1.log) := by
+  decide +kernel
+
+/-- a second schedule, without any pending Flow Control: two rx-only passes in a row. `dup` (mailbox
+    empty, nothing pending); B's CTS delivered; `process(True, False)` stores it; B's CF delivered;
+    the next `process()` starts with the rx loop (a reception is in progress), reads the CF, completes
+    the reception and clears the mailbox. -/
+def v1 : State := ((dup.pushFrame 0 ctsB).process true false).1
+theorem fc_lost_witness_rx_only :
+    v1.lastFc = some ⟨0, 0, 0⟩ ∧ v1.pendingFc = false ∧
+    ((v1.pushFrame 0 cfB).process true true).1.lastFc = none ∧
+    ((v1.pushFrame 0 cfB).process true true).1.txState = .waitFc ∧
+    ((v1.pushFrame 0 cfB).process true true).2.1.sent = 0 := by decide +kernel
+
+/-- **fc_never_lost_partial**: the statement with the hypothesis that excludes the witnesses —
+    no Flow Control pending at the entry of the `process(·, true)` call. Under H-dotx this hypothesis
+    always holds (`mailbox_inv_reachable`). What is missing with respect to the full statement: states
+    entered with `pendingFc = true`, which only `process(do_tx = false)` can leave behind
+    (`pending_cleared_by_any_tx_pass` below). -/
+theorem fc_never_lost_partial (s : State) (doRx : Bool) (h : s.lastFc = none) (hp : s.pendingFc = false) :
+    TraceOk (processT s doRx true).2 := fc_never_lost s doRx ⟨h, hp⟩
+
+/-- split processing (`process(True, False)` / `process(False, True)`) is safe exactly when the two kinds
+    of passes alternate: an rx-only pass from `MailboxInv` ends with at most one of the two fields set
+    (`MailboxExcl`), and a tx-only pass from there restores `MailboxInv` -/
+theorem split_processing_alternation (s : State) (h : MailboxInv s) :
+    MailboxExcl (s.process true false).1 ∧ MailboxInv ((s.process true false).1.process false true).1 :=
+  ⟨process_rxOnly_excl s h, process_txOnly_mail _ (process_rxOnly_excl s h)⟩
+
+example : MailboxInv a3 := ⟨by decide, by decide⟩
+example : MailboxExcl w0 ∧ ¬ MailboxInv w0 := ⟨fun _ => by decide, fun h => by have := h.2; revert this; decide⟩
+
+/-! ## 4. The end of `process` -/
+
+/-- **end_of_process_mailbox_empty.** After `process(do_rx, do_tx = true)` from a `MailboxInv` state:
+    `lastFc = none` and `pendingFc = false`. No side condition (fuel, exception). -/
+theorem end_of_process_mailbox_empty (s : State) (doRx : Bool) (h : MailboxInv s) :
+    (s.process doRx true).1.lastFc = none ∧ (s.process doRx true).1.pendingFc = false :=
+  mailbox_inv_process s doRx h
+
+/-- the exact truth from an ARBITRARY entry state, `do_tx = true`:
+    (a) no Flow Control is left pending, whatever happened; -/
+theorem pending_cleared_by_any_tx_pass (s : State) (doRx : Bool) :
+    (s.process doRx true).1.pendingFc = false := by
+  obtain ⟨f, hf⟩ := processFuel_pos s
+  unfold State.process
+  rw [hf, ← processLoopT_fst]
+  exact processLoopT_pendingFc (f + 1) doRx s {} (Or.inl (Nat.succ_pos f))
+
+/-- (b) if the call ends normally (fuel left, no exception) the mailbox is empty — but, as the witness
+    shows, possibly because `stopReceiving` emptied it. -/
+theorem mailbox_empty_at_normal_end (s : State) (doRx : Bool)
+    (hf : (s.process doRx true).2.2 = false) (he : (s.process doRx true).1.exc = none) :
+    (s.process doRx true).1.lastFc = none := by
+  unfold State.process at *
+  rw [← processLoopT_fst] at *
+  exact processLoopT_lastFc _ doRx s {} hf he
+
+/-- with `do_tx = false` a Flow Control does stay pending / in the mailbox at the end (by design) -/
+example : (a3.process true false).1.pendingFc = true := by decide
+example : ((dup.pushFrame 0 ctsB).process true false).1.lastFc = some ⟨0, 0, 0⟩ := by decide +kernel
+
+/-! ## 5. Frame conditions between the two directions -/
+
+/-- `processRx` changes no transmit-side field except the mailbox: `txState`, `txQueue`, `active`,
+    `standby`, `txFrameLen`, `txSeq`, `txBlockCnt`, `remoteBs`, `wftCnt`, `timerFc`, `timerStmin`, `rl`
+    (and `cfg`, `addr`, `now`, `exc`) are those of `s` -/
+theorem processRx_tx_fields (s : State) (m : CanMsg) :
+    (s.processRx m).1.txState = s.txState ∧ (s.processRx m).1.txQueue = s.txQueue ∧
+    (s.processRx m).1.active = s.active ∧ (s.processRx m).1.standby = s.standby ∧
+    (s.processRx m).1.txFrameLen = s.txFrameLen ∧ (s.processRx m).1.txSeq = s.txSeq ∧
+    (s.processRx m).1.txBlockCnt = s.txBlockCnt ∧ (s.processRx m).1.remoteBs = s.remoteBs ∧
+    (s.processRx m).1.wftCnt = s.wftCnt ∧ (s.processRx m).1.timerFc = s.timerFc ∧
+    (s.processRx m).1.timerStmin = s.timerStmin ∧ (s.processRx m).1.rl = s.rl ∧
+    (s.processRx m).1.exc = s.exc := by
+  have h := txView_processRx s m
+  simp only [State.txView, TxView.mk.injEq] at h
+  obtain ⟨-, -, -, h4, h5, h6, h7, h8, h9, h10, h11, h12, h13, h14, h15, h16⟩ := h
+  exact ⟨h4, h5, h6, h7, h8, h9, h10, h11, h12, h13, h14, h15, h16⟩
+
+/-- … and the mailbox is written only by a Flow Control; any other frame leaves it alone or clears it -/
+theorem processRx_mailbox (s : State) (m : CanMsg) :
+    (∀ fc, fcOf s m = some fc → (s.processRx m).1.lastFc = some fc) ∧
+    (fcOf s m = none → (s.processRx m).1.lastFc = s.lastFc ∨ (s.processRx m).1.lastFc = none) :=
+  ⟨fun fc h => by rw [processRx_fc h], processRx_nonfc_lastFc⟩
+
+/-- `processTx` changes no receive-side field except `pendingFc` (cleared) and `timerCf`: `rxState`,
+    `rxBuf`, `rxFrameLen`, `lastSeq`, `rxBlockCnt`, `actualRxdl`, `rxQueue`, `pendingFcStatus` and the
+    inbox are those of `s` -/
+theorem processTx_rx_fields (s : State) :
+    s.processTx.1.rxState = s.rxState ∧ s.processTx.1.rxBuf = s.rxBuf ∧
+    s.processTx.1.rxFrameLen = s.rxFrameLen ∧ s.processTx.1.lastSeq = s.lastSeq ∧
+    s.processTx.1.rxBlockCnt = s.rxBlockCnt ∧ s.processTx.1.actualRxdl = s.actualRxdl ∧
+    s.processTx.1.rxQueue = s.rxQueue ∧ s.processTx.1.pendingFcStatus = s.pendingFcStatus ∧
+    s.processTx.1.inbox = s.inbox ∧ s.processTx.1.pendingFc = false := by
+  have h := rxView_processTx_of_txPend s
+  have h2 : s.txPend.1.rxState = s.rxState ∧ s.txPend.1.rxBuf = s.rxBuf ∧
+      s.txPend.1.rxFrameLen = s.rxFrameLen ∧ s.txPend.1.lastSeq = s.lastSeq ∧
+      s.txPend.1.rxBlockCnt = s.rxBlockCnt ∧ s.txPend.1.actualRxdl = s.actualRxdl ∧
+      s.txPend.1.rxQueue = s.rxQueue ∧ s.txPend.1.pendingFcStatus = s.pendingFcStatus := by
+    unfold txPend startRxCfTimer State.raise
+    simp only []
+    repeat' split
+    all_goals simp
+  simp only [State.rxView, RxView.mk.injEq] at h
+  obtain ⟨-, -, -, h4, h5, h6, h7, h8, h9, -, -, h12, h13⟩ := h
+  obtain ⟨g1, g2, g3, g4, g5, g6, g7, g8⟩ := h2
+  exact ⟨h4.trans g1, h5.trans g2, h6.trans g3, h7.trans g4, h8.trans g5, h9.trans g6, h13.trans g7,
+    h12.trans g8, processTx_inbox s, processTx_pendingFc s⟩
+
+/-- N_Cr (`timerCf`) is touched by `processTx` only when it hands out a ContinueToSend: it is restarted
+    at the current time; in every other case it is unchanged -/
+theorem processTx_timerCf (s : State) :
+    s.processTx.1.timerCf =
+      if s.pendingFc = true ∧ s.pendingFcStatus = some 0 then { start := some s.now, timeout := s.cfg.tCf }
+      else s.timerCf := by
+  have h := congrArg RxView.timerCf (rxView_processTx_of_txPend s)
+  simp only [State.rxView] at h
+  rw [h]
+  unfold txPend
+  grind [State.raise, startRxCfTimer]
+
+/-- a tx-only pass `process(do_rx = false, do_tx)` never reads the inbox, and all its call points are
+    `processTx` calls -/
+theorem tx_only_pass_never_reads (s : State) (doTx : Bool) :
+    (s.process false doTx).1.inbox = s.inbox ∧
+    ∀ c ∈ (processT s false doTx).2, ∃ s', c = Call.tx s' := by
+  have h := processLoopT_txOnly s.processFuel doTx s {}
+  refine ⟨?_, h.2⟩
+  rw [← process_trace_erasure]
+  exact h.1
+
+example : (dupIn.process false true).1.inbox = [(0, ctsB), (0, cfB)] := (tx_only_pass_never_reads dupIn true).1
+
+/-! ## 6. No wedged state -/
+
+/-- a transfer in progress always has something that will end it: a running timer, a parked frame, or a
+    ContinueToSend about to be handed out (which restarts N_Cr) -/
+def NoWedge (s : State) : Prop :=
+  (s.txState = .waitFc → s.timerFc.start.isSome = true ∧ s.timerFc.timeout = s.cfg.tFc) ∧
+  (s.txState = .transmitCf → s.timerStmin.start.isSome = true) ∧
+  (s.txState = .sfStandby ∨ s.txState = .ffStandby → s.standby.isSome = true) ∧
+  (s.txState ≠ .idle → s.active.isSome = true) ∧
+  (s.rxState = .waitCf →
+    (s.timerCf.start.isSome = true ∧ s.timerCf.timeout = s.cfg.tCf) ∨
+    (s.pendingFc = true ∧ s.pendingFcStatus = some 0 ∧
+      s.processTx.1.timerCf = { start := some s.now, timeout := s.cfg.tCf }))
+
+/-- **no_wedge_duplex.** In every reachable state (any operations, any `process` flags, any frames): if a
+    transmission is active, the N_Bs timer runs (WAIT_FC), or the STmin timer runs (TRANSMIT_CF), or a
+    frame is parked for the rate limiter (standby); if a reception is active, the N_Cr timer runs, or a
+    ContinueToSend is pending whose hand-out by the next tx pass starts N_Cr. So no reachable state has
+    an incomplete transfer that no timer will end. -/
+theorem no_wedge_duplex {s : State} (h : Reach s) : NoWedge s := by
+  have hw := h.txWf
+  have ht := h.timerInv
+  obtain ⟨w1, -, w3, w4, w5, -⟩ := hw
+  obtain ⟨⟨⟨-, r2⟩, -, r3⟩, -⟩ := ht
+  refine ⟨w1, fun hs => (w3 hs).1, w4, w5, fun hr => ?_⟩
+  cases hst : s.timerCf.start with
+  | some t0 => exact Or.inl ⟨rfl, r2⟩
+  | none =>
+    obtain ⟨hp, hps⟩ := r3 hr hst
+    exact Or.inr ⟨hp, hps, processTx_restarts_timerCf s hp hps⟩
+
+/-- under H-dotx the second alternative never shows between two operations: an active reception always
+    has N_Cr running -/
+theorem no_wedge_duplex_dotx {s : State} (h : ReachTx s) :
+    NoWedge s ∧ (s.rxState = .waitCf → s.timerCf.start.isSome = true ∧ s.timerCf.timeout = s.cfg.tCf) := by
+  have hn := no_wedge_duplex h.reach
+  refine ⟨hn, fun hr => ?_⟩
+  rcases hn.2.2.2.2 hr with h1 | ⟨hp, -⟩
+  · exact h1
+  · rw [h.mailboxInv.2] at hp; cases hp
+
+/-- the timers do end the transfers: an expired N_Cr closes the reception at the next `rxfn` return … -/
+theorem expired_rx_timer_ends_reception {s : State} (h : Reach s) (hd : RxDeadlineMissed s) :
+    s.checkTimeoutsRx.rxState = .idle ∧
+    s.checkTimeoutsRx.log = .err s.now .ConsecutiveFrameTimeout :: s.log := by
+  rw [checkTimeoutsRx_fire s h.timerInv.1.1.2 hd]
+  exact ⟨rfl, rfl⟩
+
+/-- … and an expired N_Bs fails the transmission at the next tx pass (H-dotx state: nothing pending, mailbox
+    empty): the pass goes on from the failed, idle state -/
+theorem expired_tx_timer_ends_transmission {s : State} (h : ReachTx s) (hw : s.txState = .waitFc)
+    (hd : TxDeadlineMissed s) :
+    s.processTx = s.txTimedOutState.txFsm (s.rl.allowedBytes s.cfg.rlBitMax) ∧
+    s.txTimedOutState.txState = .idle ∧ s.txTimedOutState.active = none :=
+  ⟨processTx_fc_timeout s h.mailboxInv.2 hw h.reach.timerInv.2.2.2 hd
+      (fun f hf => by rw [h.mailboxInv.1] at hf; cases hf),
+   (txTimedOutState_fields s).1, (txTimedOutState_fields s).2.2.1⟩
+
+/-- non-vacuity: the full-duplex state is reachable under H-dotx, both transfers are active, both timers
+    run -/
+example : ReachTx dup :=
+  .process true (.pushFrame _ _ (.process true (.send _ (.init cfg addr))))
+example : dup.rxState = .waitCf ∧ dup.txState = .waitFc ∧ dup.timerCf.start.isSome = true ∧
+    dup.timerFc.start.isSome = true := by decide
+/-- … and the other alternative of `NoWedge` (ContinueToSend pending, N_Cr restarted by its hand-out) is
+    what the rx-only pass leaves -/
+example : w0.rxState = .waitCf ∧ w0.pendingFc = true ∧ w0.pendingFcStatus = some 0 ∧
+    w0.processTx.1.timerCf.start = some 0 := by decide
+example : RxDeadlineMissed (dup.advance 1000000001) := ⟨0, by decide, Or.inl (by decide)⟩
+example : TxDeadlineMissed (dup.advance 1000000001) := ⟨0, by decide, Or.inl (by decide)⟩
 
 end Isotp.C10
+
+#print axioms Isotp.C10.rxLoop_stops_at_fc
+#print axioms Isotp.C10.rxLoop_stops_at_fc_inbox
+#print axioms Isotp.C10.processRx_flow_control
+#print axioms Isotp.C10.mailbox_consumed_first
+#print axioms Isotp.C10.mailbox_consumed_overflow
+#print axioms Isotp.C10.mailbox_consumed_handleFc
+#print axioms Isotp.C10.txLoop_mailbox
+#print axioms Isotp.C10.txLoop_mailbox_empty
+#print axioms Isotp.C10.process_trace_erasure
+#print axioms Isotp.C10.mailbox_inv_process
+#print axioms Isotp.C10.fc_never_lost
+#print axioms Isotp.C10.mailbox_inv_reachable
+#print axioms Isotp.C10.fc_never_lost_reachable
+#print axioms Isotp.C10.processRx_call_mailbox_empty
+#print axioms Isotp.C10.processTx_call_no_early_return
+#print axioms Isotp.C10.fc_consumed_by_next_pass
+#print axioms Isotp.C10.witness_reachable
+#print axioms Isotp.C10.witness_trace
+#print axioms Isotp.C10.fc_never_lost_statement_false
+#print axioms Isotp.C10.fc_lost_witness
+#print axioms Isotp.C10.fc_lost_witness_timeout
+#print axioms Isotp.C10.fc_lost_witness_rx_only
+#print axioms Isotp.C10.fc_never_lost_partial
+#print axioms Isotp.C10.split_processing_alternation
+#print axioms Isotp.C10.end_of_process_mailbox_empty
+#print axioms Isotp.C10.pending_cleared_by_any_tx_pass
+#print axioms Isotp.C10.mailbox_empty_at_normal_end
+#print axioms Isotp.C10.processRx_tx_fields
+#print axioms Isotp.C10.processRx_mailbox
+#print axioms Isotp.C10.processTx_rx_fields
+#print axioms Isotp.C10.processTx_timerCf
+#print axioms Isotp.C10.tx_only_pass_never_reads
+#print axioms Isotp.C10.no_wedge_duplex
+#print axioms Isotp.C10.no_wedge_duplex_dotx
+#print axioms Isotp.C10.expired_rx_timer_ends_reception
+#print axioms Isotp.C10.expired_tx_timer_ends_transmission
